@@ -58,6 +58,34 @@ def build(ctx):
     return exe, model
 
 
+def build386(ctx):
+    """The same harness compiled for a 32-bit platform (uintSize = 4 in avc/annexb.go); the binary runs on this
+    machine.  Built from /repo's current working tree like the 64-bit one."""
+    common.ensure_harness_module()
+    out = os.path.join(common.BUILD, "bin", "c14_386")
+    env = dict(common.GOENV)
+    env["GOARCH"] = "386"
+    env["CGO_ENABLED"] = "0"
+    with common.locked("go_c14_386"):
+        rc, o = common.sh(["go", "build", "-tags", "verif", "-o", out, "./c14"], cwd=common.HARNESS, env=env, timeout=1200)
+    if rc != 0:
+        raise common.CheckError("harness does not build for GOARCH=386 against /repo with -tags verif:\n" + o[-2000:])
+    rc, so, e = sh2([out, "call", "hzb", "-", "01020300"], timeout=60)
+    if rc != 0 or so.strip() != "ok:1":
+        raise common.CheckError("the GOARCH=386 harness does not run on this machine: rc=%s %s %s" % (rc, so[-200:], e[-500:]))
+    return out
+
+
+def _batches386(ctx):
+    """word/tail hand-overs of a 4-byte word loop: lim = len - len%4 - 4"""
+    if ctx.tier == "thorough":
+        b = [(20000, 5, "8,9,12,14,15,19")]
+        for lo in range(8, 33, 3):
+            b.append((0, 7, "%d-%d" % (lo, min(lo + 2, 32))))
+        return b
+    return [(400, 5, "8,9,12,14,15")]
+
+
 def _batches(ctx):
     """(n, plen, backgrounds) per harness invocation; kept apart so that memory stays bounded."""
     if ctx.tier == "thorough":
@@ -103,8 +131,9 @@ def run(ctx):
     thm = {}      # per function: cases on which the hypotheses of C14_stream_bytes / C14_sample_bytes held
     thm_bad = 0   # ... and the theorem's right-hand side differed from what the Go code returned
     first_mism = None
-    for (n, plen, bgs) in _batches(ctx):
-        rc, cases, e = sh2([exe, "corr", "-seed", str(ctx.seed), "-n", str(n), "-plen", str(plen), "-bgs", bgs],
+    exe386 = build386(ctx)
+    for (xe, n, plen, bgs) in [(exe,) + b for b in _batches(ctx)] + [(exe386,) + b for b in _batches386(ctx)]:
+        rc, cases, e = sh2([xe, "corr", "-seed", str(ctx.seed), "-n", str(n), "-plen", str(plen), "-bgs", bgs],
                            timeout=3000)
         if rc != 0:
             raise common.CheckError("harness corr failed: " + e[-1000:])
@@ -141,14 +170,15 @@ def run(ctx):
     ctx.cov["evaluations"] += tot
     ctx.cov["distinct_nontrivial"] += distinct
     ctx.notes["correspondence"] = {"cases": tot, "mismatches": mism_tot, "distinct_cases": distinct,
-                                   "batches": [list(b) for b in _batches(ctx)], "per_function": kinds}
+                                   "batches": [list(b) for b in _batches(ctx)],
+                                   "batches_386": [list(b) for b in _batches386(ctx)], "per_function": kinds}
     ctx.notes["theorem_hypotheses_on_run_inputs"] = {
         "what": "the extracted recognisers wf_stream / wf_sample (+ fit_units, hevc_stream_units, hevc_units) evaluated on "
                 "the input of every correspondence case; where they hold, the right-hand side of C14_stream_bytes / "
                 "C14_sample_bytes (list functions of the units read from the bytes, not the function's model) was "
                 "compared with what the Go code returned",
         "applied_and_confirmed": sum(thm.values()), "contradicted": thm_bad,
-        "of_cases": tot - kinds.get("hzb", 0), "per_function": dict(sorted(thm.items()))}
+        "of_cases": tot - kinds.get("hzb", 0) - kinds.get("hzb32", 0), "per_function": dict(sorted(thm.items()))}
     ctx.log("correspondence: %d cases, %d mismatches; theorem hypotheses held on %d cases (%d contradicted)"
             % (tot, mism_tot, sum(thm.values()), thm_bad))
     if tot and not thm:
@@ -160,9 +190,15 @@ def run(ctx):
     sb = [(ctx.n(3000, 150000), 5, "16,17,24,31,33")]
     if ctx.tier == "thorough":
         sb.append((0, 7, "16-48"))
-    for (n, plen, bgs) in sb:
-        rc, so, e = sh2([exe, "search", "-seed", str(ctx.seed), "-n", str(n), "-plen", str(plen), "-bgs", bgs],
-                        timeout=3000)
+    sb = [(exe,) + b + (1 << 30,) for b in sb]
+    # the same search on the 32-bit compilation of the library (quick: units up to 128 KiB)
+    sb.append((exe386, ctx.n(1500, 100000), 5, "8,9,12,14,15", ctx.n(1 << 17, 1 << 30)))
+    if ctx.tier == "thorough":
+        sb.append((exe386, 0, 7, "8-32", 1 << 17))
+    sev386 = 0
+    for (xe, n, plen, bgs, bigmax) in sb:
+        rc, so, e = sh2([xe, "search", "-seed", str(ctx.seed), "-n", str(n), "-plen", str(plen), "-bgs", bgs,
+                         "-bigmax", str(bigmax)], timeout=3000)
         if rc != 0:
             raise common.CheckError("harness search failed: " + e[-1000:])
         for l in so.splitlines():
@@ -171,8 +207,11 @@ def run(ctx):
                 fails.append(f)
             elif f[0] == "EVALS":
                 sev += int(f[1])
+                if xe == exe386:
+                    sev386 += int(f[1])
     ctx.cov["evaluations"] += sev
     ctx.notes["search_evaluations"] = sev
+    ctx.notes["search_evaluations_386"] = sev386
     for f in fails:
         ctx.failing_input(f[1], f[2], f[3], f[4])
     ctx.log("search: %d evaluations, %d failing inputs" % (sev, len(fails)))
